@@ -74,16 +74,20 @@ package calculator
 //@   trusted
 //@   pure
 //@   ensures r != nil && fresh(r)
+// rankInv: the ranking lists each P-Rep at the position its rank field says (what Sort establishes)
+//@ spec rankInv(p) = p != nil && (forall k int :: {p.rank[k]} 0 <= k && k < len(p.rank) ==> p.rank[k] != nil && p.rank[k].rank == k)
 //@ func (p *PRepInfo) CalculateReward(totalReward, totalMinWage, minBond) (err)
 //@   arith int
 //@   nosafety
 //@   modifies *
 //@   opt no-callee-pre
 //@   opt inline-none
-//@   requires p != nil
-//@   callpre CalculateReward: 0 <= i && i < caller_p.electedPRepCount && i < len(caller_p.rank) && caller_p.rank[i] == p && totalPRepReward == tReward && totalAccumulatedPower == caller_p.totalAccumulatedPower && caller_minBond == minBond && minWage == minWagePerPRep
-//@   callpre CalculateReward: p.status == icmodule.ESEnable && p.rank < caller_p.electedPRepCount
-//@   loop 0: invariant -1 <= rangeindex
+//@   opt protect p.rank, p.rank[*], p.electedPRepCount, p.totalAccumulatedPower, all(PRep.rank), all(PRep.status)
+//@   requires rankInv(p)
+//@   callpre CalculateReward: 0 <= p.rank && p.rank < caller_p.electedPRepCount && p.rank < len(caller_p.rank) && caller_p.rank[p.rank] == p
+//@   callpre CalculateReward: totalPRepReward == tReward && totalAccumulatedPower == caller_p.totalAccumulatedPower && caller_minBond == minBond && minWage == minWagePerPRep
+//@   callpre CalculateReward: p.status == icmodule.ESEnable
+//@   loop 0: invariant rankInv(p)
 
 // every elected P-Rep (the first electedPRepCount entries of the ranking) starts the term with its
 // full-term accumulated votes and power
